@@ -430,6 +430,10 @@ func check(r *core.Run) {
 	r.DirectionAC("determ", core.TLCOpts{Module: "MCSession", Cfg: "MCSession_loads.cfg", Workers: 12, HeapGB: 16, Timeout: 0}, func(i int64, body string) bool {
 		return strings.Count(body, `"op":"process"`) == 1 && strings.Count(body, `"ok":true,"op":"load"`) >= 2
 	}, col)
+	// two revisions of a module and of its importer, pinned to each other: every order of the four loads
+	r.DirectionAC("determ", core.TLCOpts{Module: "MCSession", Cfg: "MCSession_loads4.cfg", Workers: 12, HeapGB: 16, Timeout: 0}, func(i int64, body string) bool {
+		return strings.Count(body, `"op":"process"`) == 1 && strings.Count(body, `"ok":true,"op":"load"`) >= 3
+	}, col)
 	for _, lc := range []string{"MCSession_loads2.cfg", "MCSession_loads3.cfg"} {
 		r.DirectionAC("determ", core.TLCOpts{Module: "MCSession", Cfg: lc, Workers: 12, HeapGB: 16, Timeout: 0}, func(i int64, body string) bool {
 			return strings.Count(body, `"op":"process"`) == 1 && strings.Count(body, `"ok":true,"op":"load"`) >= 1
